@@ -348,7 +348,7 @@ pub fn plan(property: &str, tier: Tier) -> Option<Plan> {
         "C13" => (if q { 4_000 } else { 200_000 }, if q { 60 } else { 1200 }, "exploration",
             "one case = one block shape (1..K slices, empty to full slices, optional optimistic-handover parent switch, or one of eight malformations signed by the leader) delivered to a real BlockstoreImpl with >=32 shreds of every slice in a sampled order with duplicates and conflicting material placed anywhere; exactly-once events, hash/parent, serving of every shred/root/proof, fast path equality, and exactly one InvalidBlock for malformed blocks are checked; distinct = (malformation, slices, ingest outcome histogram)"),
         "C16" => (if q { 6_000 } else { 120_000 }, if q { 60 } else { 1200 }, "exploration",
-            "one case = 2..40 independently constructed disseminator instances (Trivial, Rotor::new, Rotor::new_fa1, Turbine with fanout 1..n or 200; constructed at different simulated times in a sampled order, caches cold/warm, sampled call order) on a loss-free network with arbitrary delays; a leader sends every shred of a block; every other validator must receive each shred, exactly once under Turbine/Trivial and through at most one relay broadcast under Rotor; non-trivial = n >= 3; distinct = (disseminator, n, stakes, slot)"),
+            "two variants; (cluster-fault-free-delivery, 1 of 61 runs) 4-7 real nodes with their real message loops, fault-free, links with unequal constant extra delays (0-175 ms): every shred of every slice of every block must be addressed to every validator other than the leader (a relay must forward its shred even when it arrives after the 32 others that already let it reconstruct the slice); (dissem-routing) one case = 2..40 independently constructed disseminator instances (Trivial, Rotor::new, Rotor::new_fa1, Turbine with fanout 1..n or 200; constructed at different simulated times in a sampled order, caches cold/warm, sampled call order) on a loss-free network with arbitrary delays; a leader sends every shred of a block; every other validator must receive each shred, exactly once under Turbine/Trivial and through at most one relay broadcast under Rotor; non-trivial = n >= 3; distinct = (disseminator, n, stakes, slot)"),
         "C14" => (if q { 4_000 } else { 120_000 }, if q { 120 } else { 1500 }, "exploration",
             "one case = one real Repair::repair_loop repairing one 1..K-slice block (honest or Byzantine leader, optionally with dissemination data already present) from 2-7 peers that are real RepairRequestHandlers with or without the block, silent nodes, or liars (wrong variant, aliased/wrong indices, wrong root, mutated proofs, other block's material, alternative last-flag signing, duplicates, unsolicited answers, delays) over a network with loss/duplication/stragglers until a drawn stabilisation time; checked: announced/stored block hashes to the requested id, no panic, dissemination data untouched, repair completes within 30*REPAIR_TIMEOUT after stabilisation while honest peers holding the block carry >= 30% of the peers' stake, and an honest responder answers every request shape with verifying data or a NACK; non-trivial = a liar or an honest holder took part; distinct = (roles, slices, liar fault kinds fired, outcome)"),
         "C15" => (if q { 20_000 } else { 600_000 }, if q { 90 } else { 1500 }, "exploration",
